@@ -85,3 +85,82 @@ func fuzzWrapUnit() Unit {
 		c.Count("wrapper_cases_fail", int64(seen["fail"]))
 	}}
 }
+
+type CheckWrapCase struct {
+	Name   string
+	Make   bool
+	Prop   func(t *rapid.T)
+	Expect string // pass or fail
+}
+
+func CheckWrapCases() []CheckWrapCase {
+	pass := func(t *rapid.T) { rapid.Int().Draw(t, "x") }
+	fatal := func(t *rapid.T) {
+		if rapid.IntRange(0, 100).Draw(t, "x") >= 3 {
+			t.Fatalf("too big")
+		}
+	}
+	nonfatal := func(t *rapid.T) {
+		if rapid.IntRange(0, 100).Draw(t, "x") >= 3 {
+			t.Errorf("too big, non-fatally")
+		}
+	}
+	pan := func(t *rapid.T) {
+		if rapid.IntRange(0, 100).Draw(t, "x") >= 3 {
+			panic("boom")
+		}
+	}
+	skipAll := func(t *rapid.T) { rapid.Bool().Draw(t, "b"); t.Skip("never valid") }
+	cleanupFail := func(t *rapid.T) {
+		x := rapid.IntRange(0, 100).Draw(t, "x")
+		t.Cleanup(func() {
+			if x >= 3 {
+				t.Errorf("fails in cleanup")
+			}
+		})
+	}
+	return []CheckWrapCase{
+		{"check-pass", false, pass, "pass"}, {"check-fatal", false, fatal, "fail"}, {"check-nonfatal", false, nonfatal, "fail"},
+		{"check-panic", false, pan, "fail"}, {"check-skip-all", false, skipAll, "fail"}, {"check-cleanup-fail", false, cleanupFail, "fail"},
+		{"make-pass", true, pass, "pass"}, {"make-fatal", true, fatal, "fail"}, {"make-nonfatal", true, nonfatal, "fail"}, {"make-skip-all", true, skipAll, "fail"},
+	}
+}
+
+var reSubCheck = regexp.MustCompile(`(?m)^\s+--- (PASS|FAIL|SKIP): TestCheckWrapper/(\S+)`)
+
+func checkWrapUnit() Unit {
+	return Unit{Name: "C09/Check+MakeCheck on a real *testing.T", Run: func(c *Ctx) {
+		bin := os.Getenv("VERIF_FUZZWRAP_BIN")
+		if bin == "" {
+			c.R.HarnessErr = "VERIF_FUZZWRAP_BIN not set: checks/run.sh builds the wrapper test binary for C09/C13"
+			return
+		}
+		out, _ := exec.Command(bin, "-test.run", "TestCheckWrapper", "-test.v", "-rapid.nofailfile", "-rapid.checks=20", "-rapid.seed=7").CombinedOutput()
+		got := map[string]string{}
+		for _, m := range reSubCheck.FindAllStringSubmatch(string(out), -1) {
+			got[m[2]] = strings.ToLower(m[1])
+		}
+		cases := CheckWrapCases()
+		if len(got) != len(cases) {
+			c.R.HarnessErr = fmt.Sprintf("wrapper test reported %d sub-tests, expected %d: %s", len(got), len(cases), trunc(string(out), 800))
+			return
+		}
+		for _, cs := range cases {
+			c.R.Evals++
+			c.R.States++
+			c.R.Transitions++
+			after := strings.Contains(string(out), "AFTER-CHECK "+cs.Name)
+			c.Outcome(fmt.Sprintf("%s %s after=%v", cs.Name, got[cs.Name], after), true)
+			replay := map[string]any{"engine": "checkwrap", "case": cs.Name}
+			if got[cs.Name] != cs.Expect {
+				c.Violate(Violation{Sig: "C09 real-testing.T status-differs case=" + cs.Name, Detail: fmt.Sprintf("%s on a real *testing.T ended as %s, expected %s", cs.Name, got[cs.Name], cs.Expect), Replay: replay})
+			}
+			if cs.Expect == "fail" && after {
+				c.Violate(Violation{Sig: "C09 real-testing.T failed-check-did-not-stop-the-test case=" + cs.Name, Detail: "code after a failed Check ran: the enclosing test was not stopped (FailNow)", Replay: replay})
+			}
+			if cs.Expect == "pass" && !after {
+				c.Violate(Violation{Sig: "C09 real-testing.T passing-check-stopped-the-test case=" + cs.Name, Detail: "code after a passing Check did not run", Replay: replay})
+			}
+		}
+	}}
+}
